@@ -368,16 +368,17 @@ func plcRaw(t testing.TB, m []plcKV) []byte {
 // One history: executor + recorder + monitor
 
 type plcRun struct {
-	t        *testing.T
-	st       *Stats
-	cf       *CasesFile
-	distinct map[string]bool
-	maxKeys  int
-	verTrue  int
-	verFalse int
-	f6Tried  int
-	notes    map[string]string // boundary behaviours observed (Extra)
-	hcount   int
+	t          *testing.T
+	st         *Stats
+	cf         *CasesFile
+	distinct   map[string]bool
+	maxKeys    int
+	verTrue    int
+	verFalse   int
+	f6Tried    int
+	crossTried int
+	notes      map[string]string // boundary behaviours observed (Extra)
+	hcount     int
 }
 
 type plcHist struct {
@@ -400,6 +401,10 @@ type plcHist struct {
 
 	acceptedCommit, checkedOrRefused bool
 	fault                            string // fault text of the last persisted invocation
+
+	// ring indices of the members of ANOTHER container's committed roster
+	// (signature class "member of another container")
+	alien []int
 }
 
 func (r *plcRun) newHist(name string) *plcHist {
@@ -1077,6 +1082,62 @@ func plcCorpusF6(h *plcHist) {
 	h.Reps(cid)
 }
 
+// Signers that are members of a DIFFERENT vector of the same container
+// (earlier and later) or of another container's roster must not count.
+// The first two matrices are the witness of seeded change C14-a (members of
+// earlier vectors kept in the candidate list of later vectors).
+func plcCorpusCross(h *plcHist) {
+	g := h.g
+	cid, ocid, m0 := g.cids[0], g.cids[1], g.msgs[0]
+	A := func(i int) []byte { return g.sig(plcRFC, i, m0) }    // vector 0 = ring 0,1,2
+	B := func(i int) []byte { return g.sig(plcRFC, 3+i, m0) }  // vector 1 = ring 3,4,5
+	D := func(i int) []byte { return g.sig(plcRFC, 9+i, m0) }  // vector 2 = ring 9..12
+	E := func(i int) []byte { return g.sig(plcRFC, 13+i, m0) } // vector 3 = ring 13,14
+	C := func(i int) []byte { return g.sig(plcRFC, 6+i, m0) }  // other container: ring 6,7,8
+	try := func(name string, want bool, m plcM) {
+		h.run.crossTried++
+		res, ok := h.Verify(cid, m0, m, false)
+		h.noteB("corpus_cross_"+name, "result=%v fault=%v (expected %v)", res, !ok, want)
+	}
+	h.Add(true, ocid, 0, g.pubs(6, 7, 8))
+	h.Commit(true, ocid, []int64{1}, false)
+	h.alien = []int{6, 7, 8}
+	h.Add(true, cid, 0, g.pubs(0, 1, 2))
+	h.Add(true, cid, 1, g.pubs(3, 4, 5))
+	h.Commit(true, cid, []int64{1, 2}, false)
+	try("honest", true, plcM{{A(0)}, {B(0), B(1)}})
+	try("earlier_member_completes_later_vector", false, plcM{{A(0)}, {B(0), A(1)}})
+	try("later_vector_signed_by_earlier_members_only", false, plcM{{A(0)}, {A(1), A(2)}})
+	try("later_vector_signed_by_same_earlier_member", false, plcM{{A(0)}, {B(0), A(0)}})
+	try("honest_plus_earlier_member", true, plcM{{A(0)}, {A(1), B(2), B(1)}})
+	try("other_container_member_in_vector1", false, plcM{{A(0)}, {B(0), C(0)}})
+	try("other_container_member_in_vector0", false, plcM{{C(1)}, {B(0), B(1)}})
+	res, ok := h.Verify(ocid, m0, plcM{{A(0)}}, false)
+	h.noteB("corpus_cross_other_container_checked_with_this_member", "result=%v fault=%v (expected false)", res, !ok)
+	// REPs the other way round: a member of the LATER vector in the earlier one
+	h.Add(true, cid, 0, g.pubs(0, 1, 2))
+	h.Add(true, cid, 1, g.pubs(3, 4, 5))
+	h.Commit(true, cid, []int64{2, 1}, true)
+	try("later_member_completes_earlier_vector", false, plcM{{A(0), B(0)}, {B(1)}})
+	try("earlier_vector_signed_by_later_members_only", false, plcM{{B(0), B(1)}, {B(2)}})
+	try("honest_2_1", true, plcM{{A(2), A(0)}, {B(1)}})
+	// four vectors with different REP numbers
+	h.Add(true, cid, 0, g.pubs(0, 1, 2))
+	h.Add(true, cid, 1, g.pubs(3, 4, 5))
+	h.Add(true, cid, 2, g.pubs(9, 10, 11, 12))
+	h.Add(true, cid, 3, g.pubs(13, 14))
+	h.Commit(true, cid, []int64{1, 2, 3, 1}, false)
+	try("four_honest", true, plcM{{A(1)}, {B(2), B(0)}, {D(3), D(0), D(1)}, {E(1)}})
+	try("four_vector2_completed_by_vector0_member", false, plcM{{A(1)}, {B(2), B(0)}, {D(3), D(0), A(2)}, {E(1)}})
+	try("four_vector2_completed_by_vector1_member", false, plcM{{A(1)}, {B(2), B(0)}, {D(3), B(1), D(1)}, {E(1)}})
+	try("four_vector2_completed_by_vector3_member", false, plcM{{A(1)}, {B(2), B(0)}, {D(3), D(0), E(0)}, {E(1)}})
+	try("four_vector3_signed_by_vector0_member", false, plcM{{A(1)}, {B(2), B(0)}, {D(3), D(0), D(1)}, {A(0)}})
+	try("four_vector1_completed_by_other_container", false, plcM{{A(1)}, {B(2), C(2)}, {D(3), D(0), D(1)}, {E(1)}})
+	try("four_vectors_rotated", false, plcM{{E(1)}, {A(1), A(0)}, {B(2), B(0), B(1)}, {D(0)}})
+	h.Reps(cid)
+	h.Nodes(cid, 2)
+}
+
 // Roster life cycle and malformed requests.
 func plcCorpusRoster(h *plcHist) {
 	g := h.g
@@ -1471,8 +1532,30 @@ func mustSer(t testing.TB, it stackitem.Item) []byte {
 
 // randVector builds one signature vector for a roster vector (ring indices)
 // and a REP number.
-func (h *plcHist) randVector(r *rand.Rand, members []int, m int, msg, other []byte) [][]byte {
+//
+// cross: ring indices of members of the OTHER vectors of the same container
+// that are not members of this vector; h.alien: members of another
+// container's roster. Their valid signatures must never count here.
+func (h *plcHist) randVector(r *rand.Rand, members, cross []int, m int, msg, other []byte) [][]byte {
 	g := h.g
+	notMember := func(xs []int) []int {
+		var out []int
+		for _, x := range xs {
+			in := false
+			for _, y := range members {
+				if x == y {
+					in = true
+				}
+			}
+			if !in {
+				out = append(out, x)
+			}
+		}
+		return out
+	}
+	cross = notMember(cross)
+	alien := notMember(h.alien)
+	pick := func(xs []int) int { return xs[r.Intn(len(xs))] }
 	uniq := []int{}
 	seen := map[int]bool{}
 	for _, x := range members {
@@ -1503,7 +1586,33 @@ func (h *plcHist) randVector(r *rand.Rand, members []int, m int, msg, other []by
 	}
 	foreign := 24 + r.Intn(6)
 	var out [][]byte
-	switch r.Intn(12) {
+	class := r.Intn(17)
+	if class >= 12 && class <= 15 && len(cross) == 0 || class == 16 && len(alien) == 0 {
+		class = r.Intn(12)
+	}
+	switch class {
+	case 12: // m-1 honest + a valid signature by a member of a DIFFERENT vector
+		h.run.crossTried++
+		out = append(honest(m-1), g.sig(r.Intn(2), pick(cross), msg))
+	case 13: // only members of different vectors sign (m distinct of them when there are)
+		h.run.crossTried++
+		for i, x := range cross {
+			if i < m {
+				out = append(out, g.sig(r.Intn(2), x, msg))
+			}
+		}
+		if len(out) < m {
+			out = append(out, honest(m-len(out))...)
+		}
+	case 14: // a member of a different vector first, then m-1 honest
+		h.run.crossTried++
+		out = append([][]byte{g.sig(plcRFC, pick(cross), msg)}, honest(m-1)...)
+	case 15: // honest quorum plus a different vector's member (must stay true)
+		h.run.crossTried++
+		out = append(honest(m), g.sig(plcRFC, pick(cross), msg))
+	case 16: // m-1 honest + a valid signature by a member of ANOTHER container's roster
+		h.run.crossTried++
+		out = append(honest(m-1), g.sig(r.Intn(2), pick(alien), msg))
 	case 0, 1, 2:
 		out = honest(m)
 	case 3: // honest + junk interleaved
@@ -1564,7 +1673,13 @@ func (h *plcHist) randMatrix(r *rand.Rand, roster [][]int, reps []int64, msg, ot
 		if len(members) == 0 {
 			members = []int{0}
 		}
-		m = append(m, h.randVector(r, members, int(rep), msg, other))
+		var cross []int
+		for j, v := range roster {
+			if j != i {
+				cross = append(cross, v...)
+			}
+		}
+		m = append(m, h.randVector(r, members, cross, int(rep), msg, other))
 	}
 	switch r.Intn(10) {
 	case 0:
@@ -1605,9 +1720,13 @@ func (h *plcHist) honestMatrix(r *rand.Rand, roster [][]int, reps []int64, msg [
 	return m
 }
 
-// randRosterIdx draws 1..3 vectors of 1..8 members from the first 24 ring keys.
+// randRosterIdx draws 1..4 vectors (mostly 2..4) of 1..8 members from the
+// first 24 ring keys.
 func plcRandRoster(r *rand.Rand) [][]int {
-	nv := 1 + r.Intn(3)
+	nv := 2 + r.Intn(3)
+	if r.Intn(4) == 0 {
+		nv = 1
+	}
 	out := make([][]int, nv)
 	for v := range out {
 		n := 1 + r.Intn(8)
@@ -1658,8 +1777,23 @@ func plcRandReps(r *rand.Rand, nv int) []int64 {
 
 func plcGenVerify(h *plcHist, r *rand.Rand, nver int) {
 	g := h.g
-	cid := g.cids[r.Intn(2)]
+	ci := r.Intn(2)
+	cid := g.cids[ci]
 	msg, other := g.msgs[r.Intn(2)], g.msgs[2]
+	// another container with its own committed roster: its members' valid
+	// signatures must not count for cid
+	{
+		oc := g.cids[1-ci]
+		n := 2 + r.Intn(2)
+		var al []int
+		for i := 0; i < n; i++ {
+			al = append(al, 12+r.Intn(18))
+		}
+		h.Add(true, oc, 0, g.pubs(al...))
+		if h.Commit(true, oc, []int64{1}, false) {
+			h.alien = al
+		}
+	}
 	var roster [][]int
 	var reps []int64
 	epochs := 1 + r.Intn(2)
@@ -1899,8 +2033,8 @@ func plcGenBig(h *plcHist, r *rand.Rand) {
 
 func TestC14(t *testing.T) {
 	st := NewStats("C14")
-	st.Rule = "histories = hand-written corpus (F6 matrices, roster life cycle, vector/REP boundaries, 255-vector ladder, non-point key, 300-key vector, submitObjectPut variants) + seeded generation " +
-		"(roster life cycles over 2 container ids; verification matrices for rosters of 1..3 vectors x 1..8 members; submitObjectPut on containers created by a real put); " +
+	st.Rule = "histories = hand-written corpus (F6 matrices, signers from a different vector / another container (C14-a witnesses), roster life cycle, vector/REP boundaries, 255-vector ladder, non-point key, 300-key vector, submitObjectPut variants) + seeded generation " +
+		"(roster life cycles over 2 container ids; verification matrices for rosters of 1..4 vectors x 1..8 members with different REP numbers, built from {member, non-member, member of a different vector of the same container, member of another container's roster, duplicate, second signature by the same member, wrong message, malleated, junk}; submitObjectPut on containers created by a real put); " +
 		"non-trivial = the history contains at least one accepted commitContainerListUpdate and at least one OVerify/OSubmit evaluation or refused (faulted) operation; " +
 		"distinct = by the canonical string of all ops (arguments by interned byte strings) and outcomes"
 	thorough := Tier() == "thorough"
@@ -1950,6 +2084,7 @@ func TestC14(t *testing.T) {
 	}
 	newFile()
 	do("corpus/F6", plcCorpusF6)
+	do("corpus/cross", plcCorpusCross)
 	do("corpus/roster", plcCorpusRoster)
 	do("corpus/bounds", plcCorpusBounds)
 	do("corpus/longreps", plcCorpusLongReps)
@@ -1987,6 +2122,7 @@ func TestC14(t *testing.T) {
 	st.Extra["verify_true"] = run.verTrue
 	st.Extra["verify_false"] = run.verFalse
 	st.Extra["f6_style_matrices_tried"] = run.f6Tried
+	st.Extra["cross_vector_or_container_signer_matrices_tried"] = run.crossTried
 	st.Extra["cases_files"] = files
 	st.Extra["observed"] = run.notes
 	st.Write()
